@@ -15,9 +15,9 @@ import vlib
 PROFILES = {
     # name: profile (see vlib.profile_flags)
     "core3":    dict(N=3, L=2, cap=2, head=1, manual=0, pay=0, ctx=0, feat="PSHG"),
-    "core3dev": dict(N=3, L=2, cap=2, head=1, manual=0, pay=0, ctx=0, feat="PSHG", dev=1),
+    "core3dev": dict(N=3, L=2, cap=5, head=1, manual=0, pay=0, ctx=0, feat="PSHG", dev=1),       # (more tasks than states)
     "peer4m":   dict(N=4, L=3, cap=0, head=0, manual=1, pay=4, ctx=1, feat="PSHG", cfgorder=2),
-    "tiny2v":   dict(N=2, L=1, cap=1, head=0, manual=0, pay=5, ctx=2, feat="PSHGV", cfgorder=3),
+    "tiny2v":   dict(N=2, L=1, cap=3, head=0, manual=0, pay=5, ctx=2, feat="PSHGV", cfgorder=3),
     "inj3m":    dict(N=3, L=4, cap=0, head=1, manual=1, pay=2, ctx=3, feat="PSHG", inj=(1, 2, 1, 3), cfgorder=1),
     "virt3":    dict(N=3, L=2, cap=2, head=1, manual=0, pay=0, ctx=0, feat="PG", inj=(1, 1, 2, 0), virt=1),       # injected callbacks declared virtual, overridden by the states
     "sparse5":  dict(N=5, L=2, cap=0, head=1, manual=0, pay=1, ctx=1, feat="PSHG", defmode=1, dev=1, cfgorder=3),
@@ -262,6 +262,29 @@ def gen_plan_directed(p, rng, limit):
         ls = _activate(p) + ["@0 ito %d" % a, "@0 pc 0 %d" % a, "@0 pc %d 0" % a, "@0 succeed %d" % a, "@0 update", "@0 update",
                              "@0 succeed 0", "@0 update", "@0 update"]
         out += ls
+    # load() with several tasks pending (some with payloads), then a fresh payload-free plan in the same slots that runs to completion
+    if feat_has(p, "S") and N >= 2:
+        for a in states[:2]:
+            d = states[1] if a == states[0] else states[0]
+            ls = _activate(p)
+            if a != 0:
+                ls.append("@0 ito %d" % a)
+            first = ("@0 pw %d %d 2" % (a, d)) if p.get("pay") else ("@0 pc %d %d" % (a, d))
+            third = ("@0 pw %d %d 3" % (a, a)) if p.get("pay") else ("@0 pc %d %d" % (a, a))
+            ls += [first, "@0 pc %d %d" % (d, a), third, "@0 save", "@0 load -1", "@0 pc %d %d" % (a, d), "@0 pc %d %d" % (d, a),
+                   "@0 update | %s:S" % _key(5, a), "@0 update | %s:S" % _key(5, d), "@0 update | %s:S" % _key(5, a), "@0 update"]
+            out += ls
+    # a chain as long as the capacity drained from the front (tasks end up in high slots of the storage and become the first)
+    if N >= 2:
+        cap = p.get("cap") or N
+        if cap <= 12:
+            a, d = states[0], states[1]
+            ls = _activate(p)
+            for k in range(cap + 1):        # (the last append is refused: the plan is full)
+                ls.append("@0 pc %d %d" % ((a, d) if k % 2 == 0 else (d, a)))
+            for k in range(cap + 2):
+                ls.append("@0 update | %s:S ; %s:S" % (_key(5, a), _key(5, d)))
+            out += ls
     # failure processed on an empty plan, then idle cycles (no outcome may repeat without a new report)
     for a in states:
         ls = _activate(p)
